@@ -65,7 +65,7 @@ func runFreeHistory(idx int, dir, tier string, seed, t0 int64) *ledger {
 			return false
 		}
 	}, true, d.gate)
-	d.mgr = replica.NewWriteAheadLogManager(d.ctx, walConfigGC(), selfNode, n.Engine, nil, nil)
+	d.mgr = replica.NewWriteAheadLogManager(d.ctx, walConfigGC(), selfNode, n.Engine, nil, noCluster{})
 	d.wal = d.mgr.GetOrCreateLog(dbName)
 	var fams []tsdb.DataFamily
 	for s := 0; s < shards; s++ {
